@@ -8,7 +8,6 @@ import (
 	"strings"
 
 	h "github.com/New-JAMneration/JAM-Protocol/internal/verifh"
-	"github.com/New-JAMneration/JAM-Protocol/internal/verifpvm"
 )
 
 // ---- inner programs ---------------------------------------------------------------------------
@@ -27,7 +26,7 @@ type prog struct {
 	starts []int // instruction starts (entry points)
 }
 
-type asm struct{ verifpvm.Asm }
+type asm struct{ Asm }
 
 func (a *asm) loadImm(reg byte, v uint64, n int) { a.Ins(append([]byte{51, reg}, le(v, n)...)...) }
 func (a *asm) loadImm64(reg byte, v uint64)      { a.Ins(append([]byte{20, reg}, le(v, 8)...)...) }
@@ -45,7 +44,7 @@ func (a *asm) halt(reg byte) {
 	a.Ins(50, reg)                         // jump_ind reg + 0
 }
 func (a *asm) finish(kind string, jt []uint32, z int) prog {
-	return prog{kind: kind, blob: verifpvm.MkBlob(jt, z, a.Code, a.Mask), starts: a.Starts}
+	return prog{kind: kind, blob: mkBlob(jt, z, a.Code, a.Mask), starts: a.Starts}
 }
 
 var ecalliVals = []uint64{0, 1, 7, 12, 100, 127, 128, 255, 256, 300, 0x7fff, 0x8000, 0xffff, 0x7fffffff, 0x80000000, 0xffffffff}
@@ -623,7 +622,7 @@ func genHistory(r *h.Rng, st h.Stats) string {
 
 func gen(r *h.Rng, tier string, emit func(string)) {
 	st := h.Stats{}
-	n := 6000
+	n := 5000
 	if tier == "thorough" {
 		n = 100000
 	}
